@@ -217,7 +217,11 @@ func Concretize(x int) int     { return x }
 func Sleep(ms int)             { time.Sleep(time.Duration(ms) * time.Millisecond) }
 func Symbolic() bool           { return false }
 func LimitWrites(fd int, n int) {}
-func Note(s string)            {}
+func Note(s string) {
+	if os.Getenv("VERIF_TRACE") != "" {
+		fmt.Fprintln(os.Stderr, "    "+s)
+	}
+}
 func Stop()                    { panic(stopT{}) }
 
 // PutFile writes a file the code under test will read.
